@@ -40,9 +40,10 @@ static void chk_count (SNDFILE *s, const char *what, sf_count_t r, sf_count_t re
 /* one run of a workload; returns the number of callbacks performed */
 static long g_fault2 ; static int g_kind2 ;	/* second single-shot fault (thorough tier), 0 = none */
 static long run_workload (int format, int ch, int wl, int t, const MEMF *base, long fault_at, int kind, int persist)
-{	SF_INFO si ; SNDFILE *s ; size_t h0 ; int f0 ; SF_VERIF_STATE st ; long calls ; int ts = vh_tsize [t], i ; static double buf [4096] ; sf_count_t r ;
+{	SF_INFO si ; SNDFILE *s ; size_t h0 ; int f0 ; SF_VERIF_STATE st ; long calls ; sf_count_t wr_dataoffset = 0 ; int fired_by_update = 0 ; long wdone0 = 0 ; int ts = vh_tsize [t], i ; static double buf [4096] ; sf_count_t r ;
 	memset (&si, 0, sizeof (si)) ;
-	store.pos = 0 ; store.ncalls = 0 ; store.fired = 0 ; store.fault_at = fault_at ; store.fault_kind = kind ; store.fault_persist = persist ; store.fault_at2 = g_fault2 ; store.fault_kind2 = g_kind2 ; store.budget = 300000 ;	/* the fault-free workloads need a few hundred callbacks */
+	free (store.snap) ; store.snap = NULL ; store.snap_len = 0 ; store.snap_want = (wl == WL_WRITE && fault_at > 0) ;
+	store.pos = 0 ; store.ncalls = 0 ; store.fired = 0 ; store.nwrite_done = 0 ; store.snap_wdone = 0 ; store.fault_at = fault_at ; store.fault_kind = kind ; store.fault_persist = persist ; store.fault_at2 = g_fault2 ; store.fault_kind2 = g_kind2 ; store.budget = 300000 ;	/* the fault-free workloads need a few hundred callbacks */
 	if (wl == WL_WRITE) { store.len = 0 ; si.format = format ; si.channels = ch ; si.samplerate = 8000 ; }
 	else { store.len = base->len ; memcpy (store.d, base->d, base->len) ; if ((format & SF_FORMAT_TYPEMASK) == SF_FORMAT_RAW) { si.format = format ; si.channels = ch ; si.samplerate = 8000 ; } }
 	for (i = 0 ; i < 4096 ; i++) switch (t) { case T_SHORT : ((short *) buf) [i] = (short) (i * 13) ; break ; case T_INT : ((int *) buf) [i] = i * 500000 ; break ; case T_FLOAT : ((float *) buf) [i] = 0.001f * (i % 900) ; break ; default : buf [i] = 0.001 * (i % 900) ; }
@@ -58,10 +59,28 @@ static long run_workload (int format, int ch, int wl, int t, const MEMF *base, l
 		if (wl != WL_WRITE && (si.channels < 1 || si.channels > 7)) { sf_close (s) ; vh_stat ("header_damaged_by_fault_other_channel_count", 1) ; goto accounted ; }	/* the faulted header parse produced another channel count: the caller buffers below are sized for <= 7 */
 		if (wl != WL_WRITE) ch = si.channels ;
 		if (wl == WL_WRITE)
-		{	sf_set_string (s, SF_STR_TITLE, "title") ;
+		{	vh_state (s, &st) ; wr_dataoffset = st.dataoffset ;
+			sf_set_string (s, SF_STR_TITLE, "title") ;
 			for (i = 0 ; i < 3 ; i++) { vh_state (s, &st) ; r = vh_write_t (s, t, i & 1, buf, i == 1 ? nitems + ch * 1500 / ch : nitems / 4 / ch * ch + ch, ch) ; chk_count (s, "write", r, i == 1 ? nitems + ch * 1500 / ch : nitems / 4 / ch * ch + ch, ch, 0, &st) ; }
-			sf_command (s, SFC_UPDATE_HEADER_NOW, NULL, 0) ;
+			wdone0 = store.nwrite_done ; sf_command (s, SFC_UPDATE_HEADER_NOW, NULL, 0) ; fired_by_update = store.snap != NULL && store.snap_wdone <= wdone0 ;
 			vh_state (s, &st) ; r = vh_write_t (s, t, 0, buf, ch * 7, ch) ; chk_count (s, "write", r, ch * 7, ch, 0, &st) ;
+			vh_state (s, &st) ; if (st.dataoffset > wr_dataoffset) wr_dataoffset = st.dataoffset ;
+			sf_close (s) ; s = NULL ;
+			/* "data the I/O layer accepted before the failure is not corrupted by later calls", for every encoding: this workload only appends, so the audio bytes that were in
+			** the store when the fault fired - all but a margin for the one block a codec may still have been filling - must still be there, unchanged, in the finished file */
+			if (store.snap && store.fired && fault_at > 0 && !persist && g_fault2 == 0 && wr_dataoffset > 0 && !vh_is_alac (format))		/* ALAC stages its packets in a temporary file: the main file only receives them at close */
+			{	/* the margin: until the first write callback of the header update has stored its data no codec has flushed a partly filled block (that happens in the
+				** header update and at close), so everything in the store is final except the bytes a bit-packing codec is still filling; later the store may end in a
+				** padded block that is legitimately rewritten */
+				sf_count_t lo = wr_dataoffset, hi = store.snap_len - (fired_by_update ? 8 : 2048), q ;
+				vh_stat (fired_by_update ? "frozen_prefixes_with_8_byte_margin" : "frozen_prefixes_with_2048_byte_margin", 1) ;
+				if (hi > lo)
+				{	vh_stat ("frozen_prefixes_compared", 1) ; vh_stat ("frozen_prefix_bytes", (long) (hi - lo)) ;
+					if (store.len < hi) vh_viol (vh_key ("C15|accepted-data-lost|%s|%s", cur_fn, keyq), "single-shot fault at callback %ld: %lld bytes were in the store when it fired, the finished file has %lld", fault_at, (long long) store.snap_len, (long long) store.len) ;
+					else for (q = lo ; q < hi ; q++) if (store.d [q] != store.snap [q])
+					{	vh_viol (vh_key ("C15|accepted-data-corrupted|%s|%s|append-only", cur_fn, keyq), "single-shot fault at callback %ld (%s): byte %lld of the file (audio data starts at %lld; %lld bytes were in the store when the fault fired) changed from 0x%02x to 0x%02x although the workload only appends", fault_at, kname [kind], (long long) q, (long long) lo, (long long) store.snap_len, store.snap [q], store.d [q]) ; break ; }
+					}
+				}
 			}
 		else if (wl == WL_READ)
 		{	for (i = 0 ; i < 2 ; i++) { vh_state (s, &st) ; r = vh_read_t (s, t, i & 1, buf, (300 / ch + 1) * ch, ch) ; chk_count (s, "read", r, (300 / ch + 1) * ch, ch, 1, &st) ; }
@@ -98,6 +117,7 @@ static long run_workload (int format, int ch, int wl, int t, const MEMF *base, l
 		if (s) sf_close (s) ;
 		}
 accounted :
+	free (store.snap) ; store.snap = NULL ; store.snap_len = 0 ;		/* the harness's own allocation must be gone before the heap is measured */
 	calls = store.ncalls ; store.budget = 0 ;
 	if (fault_at > 0)
 	{	size_t h1 = vh_heap_bytes () ; int f1 = count_fds () ;
